@@ -49,6 +49,9 @@ def sig_of(*parts: Any) -> str:
     return h.hexdigest()
 
 
+HANGS = 0  # CPU-budget trips in this process
+
+
 class HangDetected(BaseException):
     """raised inside a case by the CPU-time guard (user CPU time of this process, not wall time)"""
 
@@ -60,6 +63,8 @@ class cpu_guard:
         self.seconds = seconds
 
     def _fire(self, signum, frame):  # noqa: ANN001
+        global HANGS
+        HANGS += 1
         raise HangDetected(f"more than {self.seconds}s of CPU time in one case")
 
     def __enter__(self):
@@ -119,6 +124,10 @@ class Ctx:
         self._viol_per_key[key] = n + 1
         if n < MAX_VIOL_PER_KEY:
             self.violations.append({"key": key, "what": what, "witness": witness})
+
+    def should_stop(self, cap: int = 200) -> bool:
+        """stop a shard early: enough violations were recorded, or the CPU guard tripped 3 times (each costs its budget)"""
+        return self.viol_total > cap or HANGS >= 3
 
     def inconclusive_because(self, reason: str) -> None:
         if len(self.inconclusive) < 20:
